@@ -73,6 +73,16 @@ def clause(text, env, old_env):
 
 def run(req):
     mod = importlib.import_module(f"contracts.{req['group']}_native")
+    if req.get('search'):
+        # no counter-model replayed: the group's native module may look for a failing scenario near the model
+        # (refutation aid only; e.g. short operation sequences for a stateful class)
+        if not hasattr(mod, 'search'):
+            return {'status': 'holds', 'violated': [], 'observed': 'no search available'}
+        found = mod.search(req['key'], req.get('variant', ''), req['inputs'])
+        if found:
+            return {'status': 'violated', 'violated': ['search'], 'observed': str(found)[:1500], 'exception': None,
+                    'clause_errors': {}, 'scenario': found}
+        return {'status': 'holds', 'violated': [], 'observed': 'search found nothing'}
     if req.get('finding'):
         # a recorded finding that is a composition of functions: the group's native module replays it
         still, observed = getattr(mod, req['finding'])(req['inputs'])
